@@ -1,5 +1,6 @@
 (* C13 -- optimism/Mesh.py combine_mesh / combine_blocks / combine_nodesets / combine_sidesets.
-   Python dicts are insertion-ordered association lists with overwrite semantics (names are ids). *)
+   Python dicts are insertion-ordered association lists (names are ids).  Follows the repaired code (fix 157ff14):
+   entries with equal names are concatenated. *)
 From Coq Require Import List Arith ZArith Bool.
 Import ListNotations.
 
@@ -12,23 +13,42 @@ Fixpoint dset {V} (d : dict V) (k : Z) (v : V) : dict V :=
 Fixpoint dget {V} (d : dict V) (k : Z) : option V :=
   match d with [] => None | (k', v) :: r => if Z.eqb k k' then Some v else dget r k end.
 
-(* newSet = {}; for key in set1: newSet[key] = set1[key]; for key in set2: newSet[key] = g(set2[key]) *)
-Definition combine_dicts {V} (g : V -> V) (s1 s2 : dict V) : dict V :=
-  fold_left (fun d kv => dset d (fst kv) (g (snd kv))) s2 (fold_left (fun d kv => dset d (fst kv) (snd kv)) s1 []).
+(* newSet[key] = f(newSet[key]) if key in newSet else f0 -- in place, keeping the key's position *)
+Fixpoint dupd {V} (d : dict V) (k : Z) (upd : V -> V) (fresh : V) : dict V :=
+  match d with
+  | [] => [(k, fresh)]
+  | (k', v') :: r => if Z.eqb k k' then (k, upd v') :: r else (k', v') :: dupd r k upd fresh
+  end.
+
+(* repaired code (157ff14):
+     newSet = {}; for key in set1: newSet[key] = set1[key]
+     for key in set2: val = g(set2[key]); newSet[key] = mrg(newSet[key], val) if key in newSet else val *)
+Definition combine_dicts {A} (mrg : list A -> list A -> list A) (g : list A -> list A) (s1 s2 : dict (list A)) : dict (list A) :=
+  fold_left (fun d kv => dupd d (fst kv) (fun old => mrg old (g (snd kv))) (g (snd kv))) s2
+            (fold_left (fun d kv => dset d (fst kv) (snd kv)) s1 []).
 
 Definition shift (off : nat) (l : list nat) : list nat := map (Nat.add off) l.
 Definition shift_sides (off : nat) (l : list (nat * nat)) : list (nat * nat) := map (fun es => (off + fst es, snd es)) l.
-Definition combine_blocks (s1 s2 : dict (list nat)) (elemOffset : nat) := combine_dicts (shift elemOffset) s1 s2.
+(* blocks, node sets: np.concatenate((newSet[key], val)) *)
+Definition merge_cat {A} (old val : list A) : list A := old ++ val.
+(* side sets: if len(old)>0 and len(val)>0: concatenate; elif len(val)>0: val; else: keep old *)
+Definition merge_sides {A} (old val : list A) : list A :=
+  match old, val with
+  | _ :: _, _ :: _ => old ++ val
+  | _, _ :: _ => val
+  | _, [] => old
+  end.
+Definition combine_blocks (s1 s2 : dict (list nat)) (elemOffset : nat) := combine_dicts merge_cat (shift elemOffset) s1 s2.
 Definition combine_nodesets (s1 s2 : option (dict (list nat))) (nodeOffset : nat) : option (dict (list nat)) :=
   match s1, s2 with
   | None, None => None
-  | _, _ => Some (combine_dicts (shift nodeOffset) (match s1 with Some d => d | None => [] end)
+  | _, _ => Some (combine_dicts merge_cat (shift nodeOffset) (match s1 with Some d => d | None => [] end)
                                 (match s2 with Some d => d | None => [] end))
   end.
 Definition combine_sidesets (s1 s2 : option (dict (list (nat * nat)))) (elemOffset : nat) :=
   match s1, s2 with
   | None, None => None
-  | _, _ => Some (combine_dicts (shift_sides elemOffset) (match s1 with Some d => d | None => [] end)
+  | _, _ => Some (combine_dicts merge_sides (shift_sides elemOffset) (match s1 with Some d => d | None => [] end)
                                 (match s2 with Some d => d | None => [] end))
   end.
 
